@@ -327,10 +327,10 @@ package connect
 //@   ensures let S := old(rest(r.reader)) in |S| >= 5 && withinLimit(declared(S), r.readMaxBytes) && |S| < 5 + declared(S) ==> res != nil   // label: cut-in-payload-is-error
 //@   ensures let S := old(rest(r.reader)) in |S| >= 5 && r.readMaxBytes > 0 && declared(S) > r.readMaxBytes ==> res != nil && view(env.Data) == old(view(env.Data))   // label: over-limit-rejected-nothing-buffered
 //@   ensures let S := old(rest(r.reader)) in |S| >= 5 && r.readMaxBytes > 0 && declared(S) > r.readMaxBytes && (|S| >= 5 + declared(S) || termerr(r.reader) == io.EOF) ==> codeOf(res) == 3   // label: over-limit-is-invalid-argument
-//@   ensures res == nil ==> |old(rest(r.reader))| >= 5 && withinLimit(declared(old(rest(r.reader))), r.readMaxBytes)   // label: success-implies-within-limit
+//@   ensures res == nil ==> |old(rest(r.reader))| >= 5 && withinLimit(declared(old(rest(r.reader))), r.readMaxBytes) && |old(rest(r.reader))| >= 5 + declared(old(rest(r.reader)))   // label: success-implies-complete-frame-within-limit
 //@   ensures res != nil ==> asErr(res) == res                                                                  // label: errors-are-coded
 //@   ensures res != nil && res != asErr(termerr(r.reader)) ==> res.code != 0                                   // label: own-errors-have-nonzero-code   // tags: C06
-//@   ensures res != nil && coded(termerr(r.reader)) && |old(rest(r.reader))| < 5 + (if |old(rest(r.reader))| >= 5 then declared(old(rest(r.reader))) else 0) && !(|old(rest(r.reader))| >= 5 && r.readMaxBytes > 0 && declared(old(rest(r.reader))) > r.readMaxBytes) && !(|old(rest(r.reader))| == 0 && termerr(r.reader) == io.EOF) ==> res == asErr(termerr(r.reader))   // label: coded-transport-error-passes-through   // tags: C15
+//@   ensures res != nil && coded(termerr(r.reader)) && |old(rest(r.reader))| < 5 + (if |old(rest(r.reader))| >= 5 then declared(old(rest(r.reader))) else 0) && !(|old(rest(r.reader))| >= 5 && r.readMaxBytes > 0 && declared(old(rest(r.reader))) > r.readMaxBytes) && !Is(termerr(r.reader), io.EOF) ==> res == asErr(termerr(r.reader))   // label: coded-transport-error-passes-through   // tags: C15
 //@   assert@call((*bytes.Buffer).Grow#1): r.readMaxBytes <= 0 || size <= r.readMaxBytes                        // label: buffer-growth-within-limit   // tags: C09
 //@   loop remaining:
 //@     invariant 0 <= remaining && remaining <= size && size == declared(old(rest(r.reader))) && |old(rest(r.reader))| >= 5
@@ -343,6 +343,9 @@ package connect
 // ---------------------------------------------------------------------------
 // compression.go
 // ---------------------------------------------------------------------------
+
+//@ axiom pool_kinds: (forall c *compressionPool :: {c.compressors} poolkind(c.compressors) == 1) && (forall c *compressionPool :: {c.decompressors} poolkind(c.decompressors) == 2) && (forall b *bufferPool :: {b.Pool} poolkind(b.Pool) == 0)
+//@   doc: "newCompressionPool installs New functions returning newCompressor() / newDecompressor() (interface-typed), newBufferPool one returning a *bytes.Buffer; the only Put call sites are putCompressor, putDecompressor and bufferPool.Put, each checked against the pool's kind"
 
 //@ func (*compressionPool).getCompressor(c, writer) (res, err)
 //@   tags C08, C01
@@ -374,6 +377,9 @@ package connect
 //@   ensures err == nil ==> res != nil && frompool(res) == c.decompressors && termerr(res) != nil && pooled(res)
 //@   ensures err == nil && typeis(reader, "*bytes.Buffer") && decompOK(c.decompressors, view(reader)) ==> rest(res) == decompBy(c.decompressors, view(reader)) && termerr(res) == io.EOF   // label: reset-before-use
 //@   ensures err == nil && typeis(reader, "*bytes.Buffer") && !decompOK(c.decompressors, view(reader)) ==> termerr(res) != io.EOF
+//@   ensures err == nil ==> termerr(res) == io.EOF || !Is(termerr(res), io.EOF)
+//@   ensures typeis(reader, "*bytes.Buffer") && decompOK(c.decompressors, view(reader)) ==> err == nil    // label: valid-input-resets-cleanly
+//@   ensures typeis(reader, "*bytes.Buffer") && |view(reader)| > 0 && err != nil ==> !Is(err, io.EOF)
 //@   ensures res != nil && typeis(res, "*bytes.Buffer") ==> !old(owned(res))
 //@   ensures !(res != nil && typeis(res, "*bytes.Buffer")) ==> owned(res) == old(owned(res))
 //@   ensures res != nil ==> frompool(res) == c.decompressors && pooled(res)
@@ -383,6 +389,7 @@ package connect
 //@   requires c != nil && decompressor != nil && frompool(decompressor) == c.decompressors && pooled(decompressor)
 //@   assigns owned(decompressor)
 //@   ensures owned(decompressor) == old(owned(decompressor))
+//@   ensures old(rest(decompressor)) == [] && old(termerr(decompressor)) == io.EOF ==> err == nil    // label: recycling-a-drained-decompressor-succeeds
 
 // The sum bytesRead+discardedBytes is only printed in an error message.
 //@ func (*compressionPool).Decompress(c, dst, src, readMaxBytes) res
@@ -394,4 +401,65 @@ package connect
 //@   ensures res == nil && readMaxBytes > 0 ==> |decompBy(c.decompressors, view(src))| <= readMaxBytes          // label: success-implies-within-limit   // tags: C09
 //@   ensures readMaxBytes > 0 && decompOK(c.decompressors, view(src)) && |decompBy(c.decompressors, view(src))| > readMaxBytes ==> res != nil && codeOf(res) == 3   // label: over-limit-is-invalid-argument   // tags: C09
 //@   ensures readMaxBytes > 0 && readMaxBytes < 9223372036854775807 ==> |view(dst)| - |old(view(dst))| <= readMaxBytes + 1          // label: buffers-at-most-limit-plus-one   // tags: C09
+//@   ensures decompOK(c.decompressors, view(src)) && (readMaxBytes <= 0 || |decompBy(c.decompressors, view(src))| <= readMaxBytes) ==> res == nil   // label: valid-input-within-limit-accepted
+//@   ensures |view(src)| > 0 && res != nil ==> !Is(res, io.EOF)                                    // label: failure-is-never-a-clean-eof   // tags: C04
 //@   ensures res != nil ==> asErr(res) == res && res.code != 0
+
+// frame(f, d): the 5-byte prefix (flags, big-endian length) followed by the payload.
+// appendsFrame(new, old, f, d): new is old followed by exactly one envelope: the
+// flag byte f, the payload length as a big-endian uint32, the payload d.
+//@ spec appendsFrame(new seq, old seq, f int, d seq) bool = |new| == |old| + 5 + |d| && new[:|old|] == old && new[|old|] == f && be32(new, |old| + 1) == |d| && (forall i int :: {new[|old| + i]} 1 <= i && i <= 4 ==> 0 <= new[|old| + i] && new[|old| + i] <= 255) && new[|old| + 5:] == d
+
+// The code never checks that a payload fits the 32-bit length field; payloads
+// of 4 GiB or more are outside C01's stated range (listed assumption).
+//@ func (*envelopeWriter).write(w, env) res
+//@   tags C01, C04, C05, C15
+//@   requires w != nil && w.writer != nil && !pooled(w.writer) && env != nil && env.Data != nil && owned(env.Data) && |view(env.Data)| < 4294967296
+//@   assigns out(w.writer), view(env.Data)
+//@   ensures res == nil ==> appendsFrame(out(w.writer), old(out(w.writer)), env.Flags, old(view(env.Data)))     // label: writes-one-frame
+//@   ensures res != nil ==> asErr(res) == res                                                                  // label: errors-are-coded
+//@   ensures res != nil ==> |out(w.writer)| < |old(out(w.writer))| + 5 + |old(view(env.Data))| && out(w.writer)[:|old(out(w.writer))|] == old(out(w.writer))   // label: failed-write-is-never-a-complete-frame   // tags: C04
+
+//@ func (*envelopeWriter).Write(w, env) res
+//@   tags C01, C04, C05, C08
+//@   requires w != nil && w.writer != nil && !pooled(w.writer) && w.bufferPool != nil && env != nil && env.Data != nil && owned(env.Data) && |view(env.Data)| < 4294967296
+//@   requires w.compressionPool != nil ==> (forall x seq :: {compBy(w.compressionPool.compressors, x)} |compBy(w.compressionPool.compressors, x)| < 4294967296)
+//@   assigns out(w.writer), view(env.Data)
+//@   ensures res == nil && (bit(env.Flags, 1) || w.compressionPool == nil || |old(view(env.Data))| < w.compressMinBytes) ==> appendsFrame(out(w.writer), old(out(w.writer)), env.Flags, old(view(env.Data)))   // label: small-or-uncompressible-goes-as-is
+//@   ensures res == nil && !(bit(env.Flags, 1) || w.compressionPool == nil || |old(view(env.Data))| < w.compressMinBytes) ==> appendsFrame(out(w.writer), old(out(w.writer)), env.Flags + 1, compBy(w.compressionPool.compressors, old(view(env.Data))))   // label: compressed-with-flag
+//@   ensures res != nil ==> asErr(res) == res                                                                  // label: errors-are-coded
+
+//@ func (*envelopeWriter).Marshal(w, message) res
+//@   tags C01, C04, C05
+//@   requires w != nil && w.writer != nil && !pooled(w.writer) && w.bufferPool != nil && w.codec != nil
+//@   requires forall v int :: {menc(w.codec, v)} |menc(w.codec, v)| < 4294967296
+//@   requires w.compressionPool != nil ==> (forall x seq :: {compBy(w.compressionPool.compressors, x)} |compBy(w.compressionPool.compressors, x)| < 4294967296)
+//@   assigns out(w.writer)
+//@   ensures res == nil ==> (let d := menc(w.codec, mval(message)) in (if w.compressionPool == nil || |d| < w.compressMinBytes then appendsFrame(out(w.writer), old(out(w.writer)), 0, d) else appendsFrame(out(w.writer), old(out(w.writer)), 1, compBy(w.compressionPool.compressors, d))))   // label: one-frame-holding-the-encoded-message
+//@   ensures res != nil ==> asErr(res) == res                                                                  // label: errors-are-coded
+
+// errSpecialEnvelope = errorf(CodeUnknown, "...: %w", io.EOF) (package-level initialiser).
+//@ sentinel custom errSpecialEnvelope
+//@ axiom special_envelope_wraps_eof: errSpecialEnvelope != nil && Is(errSpecialEnvelope, io.EOF) && asErr(errSpecialEnvelope) == errSpecialEnvelope && dtypeIs(errSpecialEnvelope, "*Error")
+//@   doc: "from the initialiser errorf(CodeUnknown, \"final message has protocol-specific flags: %w\", io.EOF) and the contract of errorf"
+
+// payloadOf(S): the payload of the first envelope of S; plain(r, S): what the codec is given.
+//@ spec payloadOf(s seq) seq = s[5:5+declared(s)]
+//@ macro completeFrame(r *envelopeReader, s seq) bool = |s| >= 5 && withinLimit(declared(s), r.readMaxBytes) && |s| >= 5 + declared(s)
+//@ macro isCompressed(s seq) bool = bit(s[0], 1) && declared(s) > 0
+//@ macro plainOK(r *envelopeReader, s seq) bool = !isCompressed(s) || (r.compressionPool != nil && decompOK(r.compressionPool.decompressors, payloadOf(s)) && (r.readMaxBytes <= 0 || |decompBy(r.compressionPool.decompressors, payloadOf(s))| <= r.readMaxBytes))
+//@ macro plain(r *envelopeReader, s seq) seq = if isCompressed(s) then decompBy(r.compressionPool.decompressors, payloadOf(s)) else payloadOf(s)
+
+//@ func (*envelopeReader).Unmarshal(r, message) res
+//@   tags C01, C03, C04, C07, C08, C09
+//@   requires r != nil && r.reader != nil && !pooled(r.reader) && r.bufferPool != nil && r.codec != nil
+//@   assigns rest(r.reader), mval(message), r.last.Data, r.last.Flags
+//@   ensures let S := old(rest(r.reader)) in completeFrame(r, S) && (S[0] == 0 || S[0] == 1) && plainOK(r, S) ==> (res == nil <==> mdecOK(r.codec, plain(r, S))) && rest(r.reader) == S[5+declared(S):]    // label: message-accepted-iff-codec-accepts
+//@   ensures let S := old(rest(r.reader)) in completeFrame(r, S) && (S[0] == 0 || S[0] == 1) && plainOK(r, S) && res == nil ==> mval(message) == mdec(r.codec, plain(r, S))   // label: target-is-exactly-the-decoded-payload   // tags: C01
+//@   ensures let S := old(rest(r.reader)) in res == nil ==> completeFrame(r, S) && (S[0] == 0 || S[0] == 1) && plainOK(r, S) && mdecOK(r.codec, plain(r, S))   // label: success-only-for-a-complete-decodable-message-within-limits   // tags: C04, C07, C09
+//@   ensures let S := old(rest(r.reader)) in completeFrame(r, S) && S[0] != 0 && S[0] != 1 && plainOK(r, S) ==> res == errSpecialEnvelope && r.last.Flags == S[0] && r.last.Data != nil && owned(r.last.Data) && view(r.last.Data) == plain(r, S) && rest(r.reader) == S[5+declared(S):]   // label: protocol-flagged-frame-is-kept-aside   // tags: C04, C05
+//@   ensures let S := old(rest(r.reader)) in res != nil && Is(res, io.EOF) && termerr(r.reader) == io.EOF ==> |S| == 0 || (completeFrame(r, S) && S[0] != 0 && S[0] != 1)   // label: eof-only-at-clean-end-or-flagged-frame   // tags: C04
+//@   ensures let S := old(rest(r.reader)) in res != nil && Is(res, io.EOF) && !coded(termerr(r.reader)) && !Is(termerr(r.reader), io.EOF) ==> completeFrame(r, S) && S[0] != 0 && S[0] != 1   // label: no-clean-end-when-the-transport-failed   // tags: C04
+//@   ensures let S := old(rest(r.reader)) in |S| >= 5 && r.readMaxBytes > 0 && declared(S) > r.readMaxBytes ==> res != nil   // label: oversize-on-the-wire-rejected   // tags: C09
+//@   ensures let S := old(rest(r.reader)) in completeFrame(r, S) && isCompressed(S) && r.compressionPool == nil ==> res != nil && !Is(res, io.EOF)   // label: compressed-without-negotiated-encoding-rejected   // tags: C07, C08
+//@   ensures res != nil ==> asErr(res) == res                                                                 // label: errors-are-coded
